@@ -24,6 +24,7 @@ def lpf_write(name):
 
 parts = [
   Raw("prelude/core.rs"),
+  Raw("prelude/be_lemmas.rs"),
   Raw("prelude/std.rs"),
   Raw("prelude/bytes.rs"),
   Raw("prelude/msg.rs"),
